@@ -1,6 +1,6 @@
 /-
 C04: the implementation machine refines the absolute-time specification machine on every
-history outside the F-C04-2 class (`okHist`).  Simulation relation `Rel`, one lemma per op.
+history.  Simulation relation `Rel`, one lemma per op.
 -/
 import MxlVerif.Lemmas.C04
 namespace Mxl.C04
@@ -10,8 +10,9 @@ structure Spec.Inv {σ} (a : Spec σ) : Prop where
   none_now : a.segs = none → a.now = 0 ∧ a.cur = a.y0
   some_last : ∀ l, a.segs = some l → ∃ r, lastRow? l = .ok r ∧ r.1 = a.now
 
-/-- simulation relation, indexed by what the history has done to the integrator -/
-structure Rel {σ} (h : HSt) (s : Sim σ) (a : Spec σ) : Prop where
+/-- simulation relation.  `sim` is the integrator's invariant: its clock is the time reached minus the
+    shift, its state the current state. -/
+structure Rel {σ} (s : Sim σ) (a : Spec σ) : Prop where
   pars : s.pars = a.pars
   y0 : s.y0 = a.y0
   segs : s.segs = a.segs
@@ -21,16 +22,9 @@ structure Rel {σ} (h : HSt) (s : Sim σ) (a : Spec σ) : Prop where
   shift_none : a.segs = none → s.shift = none
   shift_eq : s.shift = some a.now → s.y0 = a.cur
   last_state : ∀ l r, a.segs = some l → lastRow? l = .ok r → s.shift ≠ some a.now → r.2 = a.cur
-  sim : h.simOK = true → s.integ.t0 + s.shift.getD 0 = a.now ∧ s.integ.y0 = a.cur
-  steady : h.steadyOK = true →
-    s.integ.t0 = 0 ∧ s.integ.y0orig = a.cur ∧ s.shift.getD 0 = a.now
+  sim : s.integ.t0 + s.shift.getD 0 = a.now ∧ s.integ.y0 = a.cur
 
-theorem Rel.weaken {σ} {h h' : HSt} {s : Sim σ} {a : Spec σ} (r : Rel h s a)
-    (h1 : h'.simOK = true → h.simOK = true) (h2 : h'.steadyOK = true → h.steadyOK = true) :
-    Rel h' s a :=
-  { r with sim := fun x => r.sim (h1 x), steady := fun x => r.steady (h2 x) }
-
-theorem Rel.reached {σ} {h : HSt} {s : Sim σ} {a : Spec σ} (r : Rel h s a) :
+theorem Rel.reached {σ} {s : Sim σ} {a : Spec σ} (r : Rel s a) :
     reached? s.segs = .ok a.now := by
   rw [r.segs]
   cases hs : a.segs with
@@ -39,8 +33,8 @@ theorem Rel.reached {σ} {h : HSt} {s : Sim σ} {a : Spec σ} (r : Rel h s a) :
     obtain ⟨row, h1, h2⟩ := r.inv.some_last l hs
     simp [reached?, h1, h2]
 
-theorem Rel.init {σ} (p : Pars) (y0 : σ) : Rel HSt.start (Sim.init p y0) (Spec.init p y0) := by
-  constructor <;> simp [Sim.init, Spec.init, HSt.start]
+theorem Rel.init {σ} (p : Pars) (y0 : σ) : Rel (Sim.init p y0) (Spec.init p y0) := by
+  constructor <;> simp [Sim.init, Spec.init]
   · constructor <;> simp
   · grind
 
@@ -74,15 +68,15 @@ theorem lastRow?_appendSeg_one {σ} (segs : Option (List (Seg σ))) (r : Rat × 
 theorem getLast?_mem' {α} {l : List α} {x : α} (h : l.getLast? = some x) : x ∈ l :=
   List.mem_of_getLast? h
 
-theorem Rel.advance {σ} (S : Sys σ) {h : HSt} {s : Sim σ} {a : Spec σ} (r : Rel h s a)
-    (hs : h.simOK = true) (g' pts : List Rat) (tEnd : Rat)
+theorem Rel.advance {σ} (S : Sys σ) {s : Sim σ} {a : Spec σ} (r : Rel s a)
+    (g' pts : List Rat) (tEnd : Rat)
     (hlast : g'.getLast? = some tEnd)
     (hp : (a.now :: g').Pairwise (· < ·))
     (hpts : pts = (a.now :: g').map (unshift s.shift) ∨ pts = g'.map (unshift s.shift)) :
     ∃ ig rows, integrateTimeCourse S s.pars s.integ pts = .ok (ig, rows) ∧
-      Rel ⟨false, true⟩ (handle { s with integ := ig } rows true)
+      Rel (handle { s with integ := ig } rows true)
         (Spec.record S a (a.now :: g') tEnd) := by
-  obtain ⟨hnow, hy0⟩ := r.sim hs
+  obtain ⟨hnow, hy0⟩ := r.sim
   have hne : g' ≠ [] := by intro e; subst e; simp at hlast
   rw [← hnow] at hp hpts
   obtain ⟨ig, rows, last, hcall, hl, hrows, ht0, hy, _⟩ :=
@@ -102,7 +96,7 @@ theorem Rel.advance {σ} (S : Sys σ) {h : HSt} {s : Sim σ} {a : Spec σ} (r : 
   refine ⟨ig, rows, hcall, ?_⟩
   refine
     { pars := r.pars, y0 := r.y0, segs := ?_, failed := r.failed, inv := ⟨?_, ?_⟩, shift_le := ?_,
-      shift_none := ?_, shift_eq := ?_, last_state := ?_, sim := ?_, steady := ?_ }
+      shift_none := ?_, shift_eq := ?_, last_state := ?_, sim := ?_ }
   · simp only [handle, Spec.record, hsample, r.segs, r.pars]
   · intro hnone; simp [Spec.record] at hnone
   · intro l hl
@@ -124,47 +118,44 @@ theorem Rel.advance {σ} (S : Sys σ) {h : HSt} {s : Sim σ} {a : Spec σ} (r : 
     rw [hlastrow] at hrow
     cases hrow
     rfl
-  · intro _
-    simp only [handle, Spec.record]
+  · simp only [handle, Spec.record]
     refine ⟨ht0, ?_⟩
     rw [hy, hnow, hy0, r.pars]
-  · intro hf; simp at hf
 
 /-! ### one lemma per operation -/
 
-theorem Rel.errors_pos {σ} {h : HSt} {s : Sim σ} {a : Spec σ} (r : Rel h s a) (hf : a.failed = true) :
+theorem Rel.errors_pos {σ} {s : Sim σ} {a : Spec σ} (r : Rel s a) (hf : a.failed = true) :
     s.errors > 0 := by
   have := r.failed; rw [hf] at this; simpa using this
 
-theorem Rel.errors_zero {σ} {h : HSt} {s : Sim σ} {a : Spec σ} (r : Rel h s a) (hf : ¬ a.failed = true) :
+theorem Rel.errors_zero {σ} {s : Sim σ} {a : Spec σ} (r : Rel s a) (hf : ¬ a.failed = true) :
     ¬ s.errors > 0 := by
   have := r.failed
   intro hpos
   rw [decide_eq_true hpos] at this
   exact hf this.symm
 
-theorem step_simulate {σ} (S : Sys σ) {h : HSt} {s : Sim σ} {a : Spec σ} (r : Rel h s a)
-    (hs : h.simOK = true) (t : Rat) (n : Option Nat) :
+theorem step_simulate {σ} (S : Sys σ) {s : Sim σ} {a : Spec σ} (r : Rel s a) (t : Rat) (n : Option Nat) :
     (simulate S s t n).2 = (Spec.simulate S a t n).2 ∧
-      Rel ⟨false, true⟩ (simulate S s t n).1 (Spec.simulate S a t n).1 := by
-  have hw : Rel ⟨false, true⟩ s a := r.weaken (fun _ => hs) (fun x => by simp at x)
-  unfold simulate Spec.simulate
+      Rel (simulate S s t n).1 (Spec.simulate S a t n).1 := by
+  unfold simulate Spec.simulate integrate
   by_cases hf : a.failed = true
-  · simp [hf, r.errors_pos hf, hw]
-  · simp only [r.errors_zero hf, hf, if_false, r.reached, Bool.false_eq_true]
+  · simp [hf, r.errors_pos hf, r]
+  · simp only [r.errors_zero hf, hf, if_false, r.reached, Bool.false_eq_true, gen_simulateChecksBeforeShift,
+      if_true, gen_simulateRefusal, decide_eq_true_eq, gen_simulateSkipfirst]
     by_cases hle : t ≤ a.now
-    · simp [hle, hw]
+    · simp [hle, r]
     · simp only [hle, if_false]
       by_cases hN : nPoints n < 2
       · have h1 : nPoints n = 1 := by
           cases n with
-          | none => simp [nPoints] at hN
-          | some k => simp [nPoints] at hN ⊢; omega
+          | none => have := nPoints_none_ge; omega
+          | some k => rw [nPoints_some] at hN ⊢; omega
         obtain ⟨rest, hr, hlen⟩ := linspace_cons s.integ.t0 (unshift s.shift t) 0
         have : rest = [] := List.eq_nil_of_length_eq_zero hlen
         subst this
         simp only [h1, hr, itc_single]
-        exact ⟨rfl, hw⟩
+        exact ⟨rfl, r⟩
       · obtain ⟨m, hm⟩ : ∃ m, nPoints n = m + 2 := ⟨nPoints n - 2, by omega⟩
         obtain ⟨g', hg, hlen⟩ := linspace_cons a.now t (m + 1)
         have hp := linspace_pairwise a.now t (m + 2) (by grind)
@@ -176,14 +167,14 @@ theorem step_simulate {σ} (S : Sys σ) {h : HSt} {s : Sim σ} {a : Spec σ} (r 
           cases hgl : g'.getLast? with
           | none => exact absurd (List.getLast?_eq_none_iff.mp hgl) hne
           | some v => rw [hgl] at hlast; simpa using hlast
-        obtain ⟨hnow, _⟩ := r.sim hs
+        obtain ⟨hnow, _⟩ := r.sim
         have hpts : linspace s.integ.t0 (unshift s.shift t) (m + 2)
             = (a.now :: g').map (unshift s.shift) := by
           rw [← hg, unshift_fun, linspace_shift_sub]
           show linspace s.integ.t0 (t - s.shift.getD 0) (m + 2) = _
           congr 1
           grind
-        obtain ⟨ig, rows, hcall, hrel⟩ := r.advance S hs g' _ t hlast' hp (Or.inl hpts)
+        obtain ⟨ig, rows, hcall, hrel⟩ := r.advance S g' _ t hlast' hp (Or.inl hpts)
         simp only [hN, if_false, hm, hcall, hg]
         exact ⟨rfl, hrel⟩
 
@@ -193,24 +184,23 @@ theorem filter_getLast? {α} (l : List α) (p : α → Bool) (x : α) (h : l.get
   rw [List.filter_append]
   simp [hx]
 
-theorem step_timeCourse {σ} (S : Sys σ) {h : HSt} {s : Sim σ} {a : Spec σ} (r : Rel h s a)
-    (hs : h.simOK = true) (pts : List Rat) :
+theorem step_timeCourse {σ} (S : Sys σ) {s : Sim σ} {a : Spec σ} (r : Rel s a) (pts : List Rat) :
     (timeCourse S s pts).2 = (Spec.timeCourse S a pts).2 ∧
-      Rel ⟨false, true⟩ (timeCourse S s pts).1 (Spec.timeCourse S a pts).1 := by
-  have hw : Rel ⟨false, true⟩ s a := r.weaken (fun _ => hs) (fun x => by simp at x)
+      Rel (timeCourse S s pts).1 (Spec.timeCourse S a pts).1 := by
   unfold timeCourse Spec.timeCourse
   by_cases hf : a.failed = true
-  · simp [hf, r.errors_pos hf, hw]
-  · simp only [r.errors_zero hf, hf, if_false, r.reached, Bool.false_eq_true]
+  · simp [hf, r.errors_pos hf, r]
+  · simp only [r.errors_zero hf, hf, if_false, r.reached, Bool.false_eq_true, gen_timeCourseChecksBeforeShift,
+      if_true, gen_timeCourseRefusal, decide_eq_true_eq, gen_timeCourseSkipfirst, gen_timeCourseKeep]
     cases hl : pts.getLast? with
-    | none => exact ⟨rfl, hw⟩
+    | none => exact ⟨rfl, r⟩
     | some last =>
       simp only
       by_cases hle : last ≤ a.now
-      · simp [hle, hw]
+      · simp [hle, r]
       · simp only [hle, if_false]
         have hlt : a.now < last := by grind
-        obtain ⟨hnow, _⟩ := r.sim hs
+        obtain ⟨hnow, _⟩ := r.sim
         have hkl : (pts.filter (a.now ≤ ·)).getLast? = some last :=
           filter_getLast? pts _ last hl (by simp; grind)
         generalize hk : pts.filter (a.now ≤ ·) = kept at hkl
@@ -229,61 +219,62 @@ theorem step_timeCourse {σ} (S : Sys σ) {h : HSt} {s : Sim σ} {a : Spec σ} (
               | some v => rw [hgl] at hkl; simpa using hkl
             simp only [List.head?_cons, beq_self_eq_true, if_true]
             by_cases hp : (a.now :: krest).Pairwise (· < ·)
-            · obtain ⟨ig, rows, hcall, hrel⟩ := r.advance S hs krest _ last hlast' hp (Or.inl rfl)
+            · obtain ⟨ig, rows, hcall, hrel⟩ := r.advance S krest _ last hlast' hp (Or.inl rfl)
               simp only [hcall, (strictInc_iff _).mpr hp, Bool.not_true, Bool.false_eq_true, if_false]
               exact ⟨trivial, hrel⟩
             · have hcall := itc_unsorted S s.pars s.integ s.shift krest
                 ((a.now :: krest).map (unshift s.shift)) last hlast' (by rw [hnow]; exact hlt)
                 (by rw [hnow]; exact hp) (Or.inl (by rw [hnow]))
               simp only [hcall, (strictInc_false_iff _).mpr hp, Bool.not_false, if_true]
-              exact ⟨trivial, hw⟩
+              exact ⟨trivial, r⟩
           · have hhead : ((k0 :: krest).head? == some a.now) = false := by
               simp [hk0]
             simp only [hhead, Bool.false_eq_true, if_false]
             by_cases hp : (a.now :: k0 :: krest).Pairwise (· < ·)
             · obtain ⟨ig, rows, hcall, hrel⟩ :=
-                r.advance S hs (k0 :: krest) _ last hkl hp (Or.inr rfl)
+                r.advance S (k0 :: krest) _ last hkl hp (Or.inr rfl)
               simp only [hcall, (strictInc_iff _).mpr hp, Bool.not_true, Bool.false_eq_true, if_false]
               exact ⟨trivial, hrel⟩
             · have hcall := itc_unsorted S s.pars s.integ s.shift (k0 :: krest)
                 ((k0 :: krest).map (unshift s.shift)) last hkl (by rw [hnow]; exact hlt)
                 (by rw [hnow]; exact hp) (Or.inr ⟨rfl, by rw [hnow]; simp [hk0]⟩)
               simp only [hcall, (strictInc_false_iff _).mpr hp, Bool.not_false, if_true]
-              exact ⟨trivial, hw⟩
+              exact ⟨trivial, r⟩
 
-theorem step_steady {σ} (S : Sys σ) {h : HSt} {s : Sim σ} {a : Spec σ} (r : Rel h s a)
-    (hs : h.steadyOK = true) (res : Option Rat) (hres : ∀ d, res = some d → 0 < d) :
+theorem step_steady {σ} (S : Sys σ) {s : Sim σ} {a : Spec σ} (r : Rel s a) (res : Option Nat) :
     (steady S s res).2 = (Spec.steady S a res).2 ∧
-      Rel ⟨false, false⟩ (steady S s res).1 (Spec.steady S a res).1 := by
-  have hw : Rel ⟨false, false⟩ s a := r.weaken (fun x => by simp at x) (fun x => by simp at x)
+      Rel (steady S s res).1 (Spec.steady S a res).1 := by
   by_cases hf : a.failed = true
-  · simp [steady, Spec.steady, hf, r.errors_pos hf, hw]
-  · obtain ⟨ht0, horig, hsh⟩ := r.steady hs
-    cases res with
+  · simp [steady, Spec.steady, hf, r.errors_pos hf, r]
+  · obtain ⟨hnow, hy0⟩ := r.sim
+    cases hit : steadyIter res with
     | none =>
-      simp only [steady, Spec.steady, r.errors_zero hf, hf, if_false, Bool.false_eq_true]
+      simp only [steady, Spec.steady, r.errors_zero hf, hf, if_false, Bool.false_eq_true,
+        integrateToSteadyState_eq, gen_steadySkipfirst, hit]
       refine ⟨trivial, ?_⟩
       exact
         { pars := r.pars, y0 := r.y0, segs := r.segs, failed := by simp,
           inv := ⟨r.inv.none_now, r.inv.some_last⟩, shift_le := r.shift_le,
           shift_none := r.shift_none, shift_eq := r.shift_eq, last_state := r.last_state,
-          sim := fun x => by simp at x, steady := fun x => by simp at x }
-    | some d =>
-      have hd := hres d rfl
-      have hrow : shiftRows s.shift [(d, S.flow s.pars d s.integ.y0orig)]
+          sim := r.sim }
+    | some k =>
+      simp only [steady, Spec.steady, r.errors_zero hf, hf, if_false, Bool.false_eq_true,
+        integrateToSteadyState_eq, gen_steadySkipfirst, hit]
+      have hd := steadyDur_pos k
+      generalize steadyDur k = d at hd
+      have hrow : shiftRows s.shift [(s.integ.t0 + d, S.flow s.pars d s.integ.y0)]
           = [(a.now + d, S.flow a.pars d a.cur)] := by
-        rw [shiftRows_eq, hsh, horig, r.pars]
+        rw [shiftRows_eq, hy0, r.pars]
         simp only [List.map_cons, List.map_nil]
         congr 2
         grind
-      simp only [steady, Spec.steady, r.errors_zero hf, hf, if_false, Bool.false_eq_true]
       refine ⟨trivial, ?_⟩
       refine
         { pars := r.pars, y0 := r.y0, segs := ?_,
           failed := (by show decide (s.errors > 0) = false; simpa using r.errors_zero hf),
           inv := ⟨?_, ?_⟩, shift_le := ?_,
-          shift_none := ?_, shift_eq := ?_, last_state := ?_, sim := ?_, steady := ?_ }
-      · show some (appendSeg s.segs (shiftRows s.shift [(d, S.flow s.pars d s.integ.y0orig)]) s.pars false) = _
+          shift_none := ?_, shift_eq := ?_, last_state := ?_, sim := ?_ }
+      · show some (appendSeg s.segs (shiftRows s.shift [(s.integ.t0 + d, S.flow s.pars d s.integ.y0)]) s.pars false) = _
         rw [hrow, r.segs, r.pars]
       · intro hnone; simp at hnone
       · intro l hl
@@ -307,37 +298,35 @@ theorem step_steady {σ} (S : Sys σ) {h : HSt} {s : Sim σ} {a : Spec σ} (r : 
         rw [lastRow?_appendSeg_one] at hrow'
         cases hrow'
         rfl
-      · intro hf'; simp at hf'
-      · intro hf'; simp at hf'
+      · show s.integ.t0 + d + s.shift.getD 0 = a.now + d ∧ S.flow s.pars d s.integ.y0 = S.flow a.pars d a.cur
+        rw [hy0, r.pars]
+        exact ⟨by grind, rfl⟩
 
-theorem step_updPars {σ} {h : HSt} {s : Sim σ} {a : Spec σ} (r : Rel h s a) (kvs : Upd) :
-    (updPars s kvs).2 = (Spec.updPars a kvs).2 ∧ Rel h (updPars s kvs).1 (Spec.updPars a kvs).1 := by
+theorem step_updPars {σ} {s : Sim σ} {a : Spec σ} (r : Rel s a) (kvs : Upd) :
+    (updPars s kvs).2 = (Spec.updPars a kvs).2 ∧ Rel (updPars s kvs).1 (Spec.updPars a kvs).1 := by
   unfold updPars Spec.updPars
   rw [r.pars]
   refine ⟨rfl, ?_⟩
   exact
     { pars := rfl, y0 := r.y0, segs := r.segs, failed := r.failed,
       inv := ⟨r.inv.none_now, r.inv.some_last⟩, shift_le := r.shift_le, shift_none := r.shift_none,
-      shift_eq := r.shift_eq, last_state := r.last_state, sim := r.sim, steady := r.steady }
+      shift_eq := r.shift_eq, last_state := r.last_state, sim := r.sim }
 
-theorem step_clear {σ} {h : HSt} {s : Sim σ} {a : Spec σ} (r : Rel h s a) :
-    Rel ⟨true, true⟩ (clear s) (Spec.clear a) := by
+theorem step_clear {σ} {s : Sim σ} {a : Spec σ} (r : Rel s a) :
+    Rel (clear s) (Spec.clear a) := by
   refine
     { pars := r.pars, y0 := r.y0, segs := rfl, failed := by simp [clear, Spec.clear],
       inv := ⟨fun _ => ⟨rfl, rfl⟩, fun l hl => by simp [Spec.clear] at hl⟩,
-      shift_le := fun d hd => by simp [clear] at hd, shift_none := fun _ => rfl,
+      shift_le := fun d hd => by simp [clear] at hd, shift_none := fun _ => by simp [clear],
       shift_eq := fun hsh => by simp [clear] at hsh,
-      last_state := fun l _ hl => by simp [Spec.clear] at hl, sim := ?_, steady := ?_ }
-  · intro _
-    show (0 : Rat) + 0 = 0 ∧ s.y0 = a.y0
-    exact ⟨by grind, r.y0⟩
-  · intro _
-    show (0 : Rat) = 0 ∧ s.y0 = a.y0 ∧ (0 : Rat) = 0
-    exact ⟨rfl, r.y0, rfl⟩
+      last_state := fun l _ hl => by simp [Spec.clear] at hl, sim := ?_ }
+  show (0 : Rat) + (if Gen.clearResetsShift = true then none else s.shift).getD 0 = 0 ∧ s.y0 = a.y0
+  simp only [gen_clearResetsShift, if_true, Option.getD_none]
+  exact ⟨by grind, r.y0⟩
 
-theorem step_updVars {σ} (S : Sys σ) {h : HSt} {s : Sim σ} {a : Spec σ} (r : Rel h s a) (ov : Upd) :
+theorem step_updVars {σ} (S : Sys σ) {s : Sim σ} {a : Spec σ} (r : Rel s a) (ov : Upd) :
     (updVars S s ov).2 = (Spec.updVars S a ov).2 ∧
-      Rel ⟨true, true⟩ (updVars S s ov).1 (Spec.updVars S a ov).1 := by
+      Rel (updVars S s ov).1 (Spec.updVars S a ov).1 := by
   cases hsegs : s.segs with
   | none =>
     have hasegs : a.segs = none := by rw [← r.segs, hsegs]
@@ -351,19 +340,15 @@ theorem step_updVars {σ} (S : Sys σ) {h : HSt} {s : Sim σ} {a : Spec σ} (r :
         inv := ⟨fun _ => ⟨hnow, rfl⟩, fun l hl => by simp [hasegs] at hl⟩,
         shift_le := fun d hd => by simp [hshift] at hd, shift_none := fun _ => hshift,
         shift_eq := fun hsh => by simp [hshift] at hsh,
-        last_state := fun l _ hl => by simp [hasegs] at hl, sim := ?_, steady := ?_ }
-    · intro _
-      show (0 : Rat) + s.shift.getD 0 = a.now ∧ S.ov ov s.y0 = S.ov ov a.cur
-      rw [hshift, hnow]
-      exact ⟨by simp; grind, hy⟩
-    · intro _
-      show (0 : Rat) = 0 ∧ S.ov ov s.y0 = S.ov ov a.cur ∧ s.shift.getD 0 = a.now
-      rw [hshift, hnow]
-      exact ⟨rfl, hy, rfl⟩
+        last_state := fun l _ hl => by simp [hasegs] at hl, sim := ?_ }
+    show (0 : Rat) + s.shift.getD 0 = a.now ∧ S.ov ov s.y0 = S.ov ov a.cur
+    rw [hshift, hnow]
+    exact ⟨by simp; grind, hy⟩
   | some l =>
     have hasegs : a.segs = some l := by rw [← r.segs, hsegs]
     obtain ⟨row, hrow, hrt⟩ := r.inv.some_last l hasegs
-    have hbase : (if s.shift == some row.1 then s.y0 else row.2) = a.cur := by
+    have hbase : (if (Gen.updVarsKeepsAtSameTime && s.shift == some row.1) = true then s.y0 else row.2) = a.cur := by
+      simp only [gen_updVarsKeepsAtSameTime, Bool.true_and]
       by_cases hsh : s.shift = some a.now
       · simp [hrt, hsh, r.shift_eq hsh]
       · have : (s.shift == some row.1) = false := by rw [hrt]; simpa using hsh
@@ -376,7 +361,7 @@ theorem step_updVars {σ} (S : Sys σ) {h : HSt} {s : Sim σ} {a : Spec σ} (r :
         inv := ⟨fun hn => by simp [hasegs] at hn, fun l' hl' => ?_⟩,
         shift_le := fun d hd => ?_, shift_none := fun hn => by simp [hasegs] at hn,
         shift_eq := fun _ => rfl,
-        last_state := fun l' row' _ _ hne => ?_, sim := ?_, steady := ?_ }
+        last_state := fun l' row' _ _ hne => ?_, sim := ?_ }
     · simp only [hasegs, Option.some.injEq] at hl'
       subst hl'
       exact ⟨row, hrow, hrt⟩
@@ -385,72 +370,30 @@ theorem step_updVars {σ} (S : Sys σ) {h : HSt} {s : Sim σ} {a : Spec σ} (r :
       rw [← hd, hrt]
       exact Rat.le_refl
     · exfalso; apply hne; show some row.1 = some a.now; rw [hrt]
-    · intro _
-      show (0 : Rat) + (some row.1).getD 0 = a.now ∧ S.ov ov a.cur = S.ov ov a.cur
+    · show (0 : Rat) + (some row.1).getD 0 = a.now ∧ S.ov ov a.cur = S.ov ov a.cur
       rw [Option.getD_some, hrt]
       exact ⟨by grind, rfl⟩
-    · intro _
-      show (0 : Rat) = 0 ∧ S.ov ov a.cur = S.ov ov a.cur ∧ (some row.1).getD 0 = a.now
-      rw [Option.getD_some, hrt]
-      exact ⟨rfl, rfl, rfl⟩
 
 /-! ### histories -/
 
-theorem step_refines {σ} (S : Sys σ) {h h' : HSt} {s : Sim σ} {a : Spec σ} (r : Rel h s a) (op : Op)
-    (hn : h.next op = some h') :
-    (step S s op).2 = (Spec.step S a op).2 ∧ Rel h' (step S s op).1 (Spec.step S a op).1 := by
+theorem step_refines {σ} (S : Sys σ) {s : Sim σ} {a : Spec σ} (r : Rel s a) (op : Op) :
+    (step S s op).2 = (Spec.step S a op).2 ∧ Rel (step S s op).1 (Spec.step S a op).1 := by
   cases op with
-  | simulate t n =>
-    simp only [HSt.next] at hn
-    split at hn
-    · cases hn; exact step_simulate S r (by assumption) t n
-    · cases hn
-  | timeCourse pts =>
-    simp only [HSt.next] at hn
-    split at hn
-    · cases hn; exact step_timeCourse S r (by assumption) pts
-    · cases hn
-  | steady res =>
-    cases res with
-    | none =>
-      simp only [HSt.next, Bool.and_true] at hn
-      split at hn
-      · cases hn
-        exact step_steady S r (by assumption) none (by intro d hd; cases hd)
-      · cases hn
-    | some d =>
-      simp only [HSt.next, Bool.and_eq_true, decide_eq_true_eq] at hn
-      split at hn
-      · rename_i hc
-        cases hn
-        exact step_steady S r hc.1 (some d) (by intro d' hd; cases hd; exact hc.2)
-      · cases hn
-  | updPars kvs =>
-    simp only [HSt.next, Option.some.injEq] at hn
-    subst hn
-    exact step_updPars r kvs
-  | updVars ov =>
-    simp only [HSt.next, Option.some.injEq] at hn
-    subst hn
-    exact step_updVars S r ov
-  | clear =>
-    simp only [HSt.next, Option.some.injEq] at hn
-    subst hn
-    exact ⟨rfl, step_clear r⟩
+  | simulate t n => exact step_simulate S r t n
+  | timeCourse pts => exact step_timeCourse S r pts
+  | steady res => exact step_steady S r res
+  | updPars kvs => exact step_updPars r kvs
+  | updVars ov => exact step_updVars S r ov
+  | clear => exact ⟨rfl, step_clear r⟩
 
-theorem run_refines {σ} (S : Sys σ) : ∀ (ops : List Op) (h : HSt) (s : Sim σ) (a : Spec σ),
-    Rel h s a → okHist h ops = true →
-    (run S s ops).2 = (Spec.run S a ops).2 ∧ ∃ h', Rel h' (run S s ops).1 (Spec.run S a ops).1
-  | [], h, s, a, r, _ => ⟨rfl, h, r⟩
-  | op :: rest, h, s, a, r, hok => by
-    simp only [okHist] at hok
-    cases hn : h.next op with
-    | none => simp [hn] at hok
-    | some h' =>
-      simp only [hn] at hok
-      obtain ⟨he, hr⟩ := step_refines S r op hn
-      obtain ⟨hes, hrs⟩ := run_refines S rest h' _ _ hr hok
-      simp only [run, Spec.run]
-      exact ⟨by rw [he, hes], hrs⟩
+theorem run_refines {σ} (S : Sys σ) : ∀ (ops : List Op) (s : Sim σ) (a : Spec σ),
+    Rel s a →
+    (run S s ops).2 = (Spec.run S a ops).2 ∧ Rel (run S s ops).1 (Spec.run S a ops).1
+  | [], _, _, r => ⟨rfl, r⟩
+  | op :: rest, s, a, r => by
+    obtain ⟨he, hr⟩ := step_refines S r op
+    obtain ⟨hes, hrs⟩ := run_refines S rest _ _ hr
+    simp only [run, Spec.run]
+    exact ⟨by rw [he, hes], hrs⟩
 
 end Mxl.C04
